@@ -973,6 +973,43 @@ def tie_points_to(pr, mod):
     return st, bad
 
 
+def sem_validation(pr, mod, want):
+    """adequacy of translator + muSSA semantics (not an alarm): native observations inside translated functions should be
+    covered by the model's least solution as well (it over-approximates every muSSA execution by the theorems)"""
+    nat, dump = pr["native"], pr["dump"]
+    st = {"semval_native_in_model": 0, "semval_native_not_in_model": 0, "semval_outside_fragment": 0}
+    if want == "pts":
+        objs = sorted(o for o in nat["objs"] if o[0])
+        bases = [o[0] for o in objs]
+        seen = set()
+        for pid, kind, addr in nat["probes"]:
+            sid = find_obj(objs, bases, nat["sizes"], addr) if addr else None
+            if sid is None or (pid, sid) in seen:
+                continue
+            seen.add((pid, sid))
+            pv = dump["probe"][pid]["val"]
+            if pv not in mod["pts"]:
+                st["semval_outside_fragment"] += 1
+            elif dump["site"].get(sid) in mod["pts"][pv]:
+                st["semval_native_in_model"] += 1
+            else:
+                st["semval_native_not_in_model"] += 1
+    else:
+        medges = {}
+        for site, callee in mod["edges"]:
+            medges.setdefault(site, []).append(callee)
+        for cs, tag in nat["events"]:
+            sites = dump["cs"].get(cs, [])
+            keys = [ik for _c, ik in sites]
+            if not any(k in medges for k in keys):
+                st["semval_outside_fragment"] += 1
+            elif any(_reaches_tag(dump, c, tag) for k in keys for c in medges.get(k, [])):
+                st["semval_native_in_model"] += 1
+            else:
+                st["semval_native_not_in_model"] += 1
+    return st
+
+
 def tie_reach_closure(pr):
     """extracted worklist model of CallGraphReachable on the impl's whole call graph == impl ReachableFunctions()"""
     cgp = os.path.join(pr["dir"], "cg.txt")
@@ -1052,6 +1089,49 @@ def noeffect_run(pr, work):
     pr2 = dict(pr)
     pr2["dump"] = parse_dump(open(outp).read())
     return pr2
+
+
+def check_noeffect_errno(chk, work):
+    """corpus/c12/noeffect_errno: result of a no-effect intrinsic that returns an error is called through the interface"""
+    src = os.path.join(vlib.VERIF, "corpus", "c12", "noeffect_errno")
+    d = os.path.join(work, "noeffecterrno")
+    exe = os.path.join(vlib.BIN, "c11dump")
+    stamp = _sha(exe) + _sha(os.path.join(src, "main.go"))
+    st = os.path.join(d, "stamp")
+    if not (os.path.exists(st) and open(st).read() == stamp):
+        shutil.rmtree(d, ignore_errors=True)
+        shutil.copytree(src, d)
+        rc, out, err = vlib.sh2(["go", "run", "."], cwd=d, timeout=900)
+        if rc != 0:
+            raise vlib.BuildError("corpus program noeffect_errno does not run", err[-2000:])
+        open(os.path.join(d, "native.log"), "w").write(out)
+        rc, out, err = vlib.sh2([exe, "-repo", vlib.REPO, "-o", os.path.join(d, "dump.txt"), d], timeout=1500)
+        if rc != 0:
+            raise vlib.BuildError("c11dump failed on corpus program noeffect_errno", (out + err)[-3000:])
+        open(st, "w").write(stamp)
+    nat = open(os.path.join(d, "native.log")).read()
+    dump = parse_dump(open(os.path.join(d, "dump.txt")).read())
+    executed = "T syscall.Errno" in nat and "\nS " in nat
+    sites = dump["cs"].get(1, [])
+    callees = sorted(c for caller, ikey in sites for s0, c in dump["edges"].get(caller, []) if s0 == ikey)
+    res = sorted(dump["res"].get(1, []))
+    info = {"executed_errno_error": executed, "edges_at_site": callees, "resolve_includes": "(syscall.Errno).Error" in res}
+    if executed and "(syscall.Errno).Error" not in callees:
+        dd = chk.replay_dir("noeffect-intrinsic-error-result")
+        for f in ("main.go", "go.mod", "native.log", "dump.txt"):
+            shutil.copy(os.path.join(d, f), dd)
+        open(os.path.join(dd, "replay.txt"), "w").write(
+            "err := syscall.Close(-1) is non-nil at run time with dynamic type syscall.Errno and err.Error() executes "
+            "(syscall.Errno).Error, but the call graph has no edge at that call site (edges there: %s) because syscall.Close is "
+            "listed as ext.NoEffect in internal/pointer/intrinsics.go and its error result gets an empty points-to set.\n"
+            "ResolveCallee falls back to the by-type table (includes the callee: %s).\n"
+            "re-run: (cd <dir> && go run .); build/bin/c11dump -o dump.txt <dir>; grep 'EDGE noeffecterrno.main' dump.txt\n"
+            % (callees, info["resolve_includes"]))
+        chk.violation("noeffect-intrinsic-error-result", "call err.Error() on the result of the no-effect intrinsic syscall.Close has no "
+                      "call-graph edge although (syscall.Errno).Error runs", dd)
+    elif executed:
+        chk.notes.append("stale_known_finding: noeffect-intrinsic-error-result no longer reproduces (edge present)")
+    return info
 
 
 def common(chk, want):
@@ -1139,6 +1219,8 @@ def common(chk, want):
                     st2, bad = tie_calls(pr, mod)
                 for kk, v in st2.items():
                     dist["tie_" + kk] = dist.get("tie_" + kk, 0) + v
+                for kk, v in sem_validation(pr, mod, want).items():
+                    dist[kk] = dist.get(kk, 0) + v
                 validated += st2.get("compared", 0) + st2.get("edges_compared", 0) + st2.get("reach_compared", 0)
                 if bad:
                     tie_bad.append((pr, "model least solution not included in the implementation's result", bad[:20]))
@@ -1166,6 +1248,8 @@ def common(chk, want):
             break
         chk.assumptions.append("config default for pointer-config.unsafe-no-effect-functions is empty; the check lists only generated leaf "
                                "functions that are alias-pure by construction")
+    if want == "calls":
+        dist["noeffect_errno_case"] = check_noeffect_errno(chk, work)
     if tie_bad and not found_concrete:
         pr, why, bad = tie_bad[0]
         d = write_replay(chk, "tie", pr, "T-dump tie broken: %s\nfirst disagreements (value / call site, model-only labels, impl labels):\n%s\n"
